@@ -43,3 +43,8 @@ Print Assumptions C15_range.
 Theorem C15_affine_invariant : forall a b ps, 0 < a -> 0 < NX ps -> 0 < NY ps -> rho (amap_pairs a b ps) = rho ps.
 Proof. exact rho_affine. Qed.
 Print Assumptions C15_affine_invariant.
+
+(** ... nor by a negative one: flipping the sign of the whole series leaves its autocorrelation alone *)
+Theorem C15_reflection_invariant : forall a b ps, a < 0 -> 0 < NX ps -> 0 < NY ps -> rho (amap_pairs a b ps) = rho ps.
+Proof. exact rho_affine_neg. Qed.
+Print Assumptions C15_reflection_invariant.
